@@ -16,4 +16,17 @@ SPECS = {
                       'the regex crate decides --path-regex (a parameter of the model: "a path in which the regex finds a match")'],
         assumptions=['`**/` means zero or more whole directories (the reading consistent with the statement and the pinned test path_glob_selects_md_under_src)'],
     ),
+    'C05': dict(
+        fncorr=['replace', 'rules', 'template'],
+        trusted_base=['modelled, not verified: message.rs replace_all_bytes, MessageReplacer::from_file/apply, blob_regex/msg_regex rule parsing and expand_bytes_template (Frrs/Replace.lean)',
+                      'regex matching and replace_all of the regex crate are a parameter: only rule parsing (pattern text handed to the compiler, glob translation, replacement, $-flag) and template expansion are modelled'],
+        assumptions=['rule files are read as bytes split on LF', 'SHA-1 is a function of the object bytes (unchanged bytes => unchanged id)'],
+    ),
+    'C04': dict(
+        fncorr=['timestamp', 'authors', 'mailmap', 'replace', 'rules'],
+        trusted_base=['modelled, not verified: rewrite_timestamp_line, AuthorRewriter, rewrite_author_line, rewrite_email_line, MailmapRewriter (Frrs/Identity.lean, Frrs/Utf8.lean); message rules share Frrs/Replace.lean',
+                      'aho-corasick enters through its documented standard (earliest-end) match semantics (acReplace), validated by the correspondence run',
+                      'the mailmap line regex of MailmapRewriter::from_reader is modelled by hand (parseMailmapLine) and validated by the correspondence run'],
+        assumptions=['std::str::from_utf8 and Unicode White_Space as modelled in Frrs/Utf8.lean'],
+    ),
 }
